@@ -337,17 +337,6 @@ func sanitize(s string) string {
 // Finish applies the minimum counts, prints the summary, writes evidence and
 // reports, and returns the exit code.
 func (c *Ctx) Finish(meta propMeta) int {
-	rules := []string{}
-	for r := range c.mins {
-		rules = append(rules, r)
-	}
-	sort.Strings(rules)
-	for _, r := range rules {
-		if n := c.count(r); n < c.mins[r] {
-			c.obs = append(c.obs, Obligation{Rule: r, Key: "anchor-lost:min-instances", OK: false,
-				Detail: fmt.Sprintf("anchor lost: rule %s matched %d instance(s), fewer than the %d confirmed by hand; the rule would pass vacuously", r, n, c.mins[r])})
-		}
-	}
 	// de-duplicate identical (rule,key) pairs, keeping a failing one if any
 	type rk struct{ r, k string }
 	idx := map[rk]int{}
@@ -362,6 +351,23 @@ func (c *Ctx) Finish(meta propMeta) int {
 		}
 		idx[k] = len(obs)
 		obs = append(obs, o)
+	}
+	{
+		cnt := map[string]int{}
+		for _, o := range obs {
+			cnt[o.Rule]++
+		}
+		rules := []string{}
+		for r := range c.mins {
+			rules = append(rules, r)
+		}
+		sort.Strings(rules)
+		for _, r := range rules {
+			if n := cnt[r]; n < c.mins[r] {
+				obs = append(obs, Obligation{Rule: r, Key: "anchor-lost:min-instances", OK: false,
+					Detail: fmt.Sprintf("anchor lost: rule %s matched %d instance(s), fewer than the %d confirmed by hand; the rule would pass vacuously", r, n, c.mins[r])})
+			}
+		}
 	}
 	sort.SliceStable(obs, func(i, j int) bool {
 		if obs[i].Rule != obs[j].Rule {
